@@ -2,8 +2,8 @@ import SaphyrVerif.Basic.Text
 import SaphyrVerif.Basic.Utf8
 /-!
 Model of the YAML emitter `src/ser.rs::YamlSerializer` (+ `SeqSer`, `MapSer`, `TupleSer`,
-`TupleVariantSer`, `StructVariantSer`, the wrapper interception of `serialize_newtype_struct`,
-`KeyScalarSink`), `src/wrapping.rs` (`write_folded_block`, `first_line_leading_spaces`) and the entry
+`TupleVariantSer`, `StructVariantSer` with `begin_variant` / `end_variant`, the wrapper interception of
+`serialize_newtype_struct`, `KeyScalarSink`), `src/wrapping.rs` (`write_folded_block`, `first_line_leading_spaces`) and the entry
 point `to_string_with_options` (`SerializerOptions::consistent`).
 
 Shaped like the Rust code: the record `St` has the same layout flags as `YamlSerializer`, every
@@ -21,7 +21,7 @@ assume their contract on a safe leaf class.  Not modelled: anchors (`pending_anc
 Panics: none of the transcribed operations can panic (`in_flow -= 1` follows `+= 1`,
 `v.len() - content.len()` is a suffix length, the slices of `write_folded_block` are at positions
 `start ≤ ws_start` inside the line — see `foldedLine`).  Errors: `InvalidOptions` (indent step 0) and
-`Unexpected("non-scalar key")` from `scalar_key_to_string(..)?` in flow mappings / struct variants.
+`Unexpected("non-scalar key")` from `scalar_key_to_string(..)?` in flow mappings.
 -/
 namespace SaphyrVerif.Emit
 open SaphyrVerif
@@ -139,6 +139,8 @@ structure St where
   afterDashDepth : Option Nat := none
   currentMapDepth : Option Nat := none
   docStarted : Bool := false
+  /-- `indent_shift`: columns added to `indent_step * depth` (0 whenever `indent_step = 2`) -/
+  indentShift : Int := 0
 deriving Repr, DecidableEq, Inhabited
 
 /-! ### text helpers -/
@@ -169,8 +171,10 @@ def firstLineLeadingSpaces (s : List Char) : Nat :=
 /-- `write!(out, "{}", v)` for the integer types -/
 def intText (i : Int) : List Char := (toString i).toList
 
-/-- `comment.replace('\n', " ")` (the only sanitising `TupleSer` of kind `Commented` does) -/
-def sanitizeComment (c : List Char) : List Char := c.map fun ch => if ch == '\n' then ' ' else ch
+/-- the sanitising `TupleSer` of kind `Commented` does: every control character except TAB
+(`char::is_control`, hence LF, CR, NUL, NEL, …), U+2028 and U+2029 become a space -/
+def sanitizeComment (c : List Char) : List Char :=
+  c.map fun ch => if (isControl ch && ch != '\t') || ch.toNat == 0x2028 || ch.toNat == 0x2029 then ' ' else ch
 
 /-- `YamlSerializer::needs_double_quotes` -/
 def needsDoubleQuotes (s : List Char) : Bool :=
@@ -282,6 +286,12 @@ def St.write (s : St) (cs : List Char) : St := { s with out := s.out ++ cs }
 /-- `newline` -/
 def newline (s : St) : St := { s with out := s.out ++ ['\n'], atLineStart := true }
 
+/-- `indent_cols(depth)`: `((indent_step * depth) as isize + indent_shift).max(0) as usize` -/
+def indentCols (o : Opts) (s : St) (depth : Nat) : Nat := (((o.indentStep * depth : Nat) : Int) + s.indentShift).toNat
+
+/-- `shift_for_inline_node`: `indent_shift += 2 - indent_step` (the caller keeps the previous value) -/
+def shiftForInlineNode (o : Opts) (s : St) : St := { s with indentShift := s.indentShift + (2 - (o.indentStep : Int)) }
+
 /-- `write_indent(depth)` (emits the `%YAML 1.2` + `---` prologue before the first token of the document) -/
 def writeIndent (o : Opts) (s : St) (depth : Nat) : St :=
   if s.atLineStart then
@@ -289,7 +299,7 @@ def writeIndent (o : Opts) (s : St) (depth : Nat) : St :=
         let s := { s with docStarted := true }
         if o.yaml12 then { s.write "%YAML 1.2\n---\n".toList with atLineStart := true } else s
       else s
-    { s.write (spaces (o.indentStep * depth)) with atLineStart := false }
+    { s.write (spaces (indentCols o s depth)) with atLineStart := false }
   else s
 
 /-- `write_space_if_pending` -/
@@ -328,7 +338,7 @@ reached: header, body lines -/
 def literalBlock (o : Opts) (v : List Char) (needsIndicator : Bool) (bodyBase : Nat) (s : St) : St :=
   let content := trimEndNl v
   let trailingNl := v.length - content.length
-  let indentN := o.indentStep * bodyBase
+  let indentN := indentCols o s bodyBase
   let s := s.write ['|']
   let s := if needsIndicator then s.write [Char.ofNat (48 + indentN)] else s
   let s := match trailingNl with
@@ -336,9 +346,10 @@ def literalBlock (o : Opts) (v : List Char) (needsIndicator : Bool) (bodyBase : 
     | 1 => s
     | _ => s.write ['+']
   let s := newline s
-  let indentStr := spaces (o.indentStep * bodyBase)
+  let indentStr := spaces (indentCols o s bodyBase)
   if content.isEmpty then
-    if trailingNl ≥ 1 then writeBodyLine indentStr [] s else s
+    -- only line breaks: one empty content line per line break
+    (List.range trailingNl).foldl (fun s _ => writeBodyLine indentStr [] s) s
   else
     let s := (splitNl content).foldl (fun s line => writeBodyLine indentStr line s) s
     if trailingNl ≥ 2 then
@@ -347,7 +358,7 @@ def literalBlock (o : Opts) (v : List Char) (needsIndicator : Bool) (bodyBase : 
 
 /-- the block-scalar arm of `serialize_str` for `StrStyle::Folded` -/
 def foldedBlockScalar (o : Opts) (v : List Char) (needsIndicator : Bool) (bodyBase : Nat) (s : St) : St :=
-  let indentN := o.indentStep * bodyBase
+  let indentN := indentCols o s bodyBase
   let s := s.write ['>']
   let s := if needsIndicator then s.write [Char.ofNat (48 + indentN)] else s
   let s := if s.pendingStrFromAuto then
@@ -358,7 +369,8 @@ def foldedBlockScalar (o : Opts) (v : List Char) (needsIndicator : Bool) (bodyBa
       | _ => s.write ['+']
     else s
   let s := newline s
-  { s.write (foldedBlock v bodyBase o.indentStep o.foldedWrapCol) with atLineStart := true }
+  -- the indentation is handed over in columns (a step of 1)
+  { s.write (foldedBlock v (indentCols o s bodyBase) 1 o.foldedWrapCol) with atLineStart := true }
 
 /-- `serialize_str` -/
 def serStr (o : Opts) (f : ScalarFns) (v : List Char) (s : St) : St :=
@@ -393,13 +405,16 @@ def serStr (o : Opts) (f : ScalarFns) (v : List Char) (s : St) : St :=
     let base := if wasMapValue then s.currentMapDepth.getD s.depth else s.afterDashDepth.getD s.depth
     let s := if s.atLineStart then writeIndent o s base else s
     let bodyBase := base + 1
-    let indentN := o.indentStep * bodyBase
+    let indentN := indentCols o s bodyBase
     let contentTrimmed := trimEndNl v
     let needsIndicator := firstLineLeadingSpaces contentTrimmed > 0
     -- the indicator is counted from the parent node: written only where the parent is at column 0;
     -- a body that would not be deeper than an inline `- - ` is quoted as well
     let shallowInlineSeq := o.indentStep < 2 && !wasMapValue && base > 0
-    if (needsIndicator && (indentN > 9 || base > 0)) || shallowInlineSeq then
+    -- a block scalar is written raw: content with CR / NUL / NEL / other controls is quoted, also for
+    -- `LitStr` / `FoldStr`; inside a flow collection there are no block scalars
+    let hasControls := v.any fun c => isControl c && c != '\n' && c != '\t'
+    if (needsIndicator && (indentN > 9 || base > 0)) || shallowInlineSeq || hasControls || s.inFlow > 0 then
       let s := { s with pendingStrStyle := none, pendingStrFromAuto := false }
       let s := s.write (plainOrQuotedValue o f (s.inFlow > 0) v)
       writeEndOfScalar s
@@ -432,6 +447,7 @@ structure SeqSer where
   depth : Nat
   flow : Bool
   first : Bool := true
+  restoreShift : Option Int := none
 deriving Repr, DecidableEq
 
 /-- `serialize_seq` (also `serialize_tuple`) -/
@@ -444,11 +460,8 @@ def serializeSeq (o : Opts) (s : St) : SeqSer × St :=
     ({ depth := s.depth, flow := true }, s)
   else
     let wasInlineValue := !s.atLineStart
-    let s := if s.pendingSpaceAfterColon && s.lastValueWasBlock then
-        let s := { s with pendingSpaceAfterColon := false }
-        let s := if !s.atLineStart then newline s else s
-        { s with lastValueWasBlock := false }
-      else s
+    -- after a block sibling only the marker is consumed: the line break is left to the first element
+    let s := if s.pendingSpaceAfterColon && s.lastValueWasBlock then { s with lastValueWasBlock := false } else s
     let inlineFirst := !s.atLineStart && s.afterDashDepth.isSome && !s.pendingSpaceAfterColon
     let s := if inlineFirst then { s with atLineStart := false } else s
     let base := if inlineFirst then s.afterDashDepth.getD s.depth
@@ -459,7 +472,8 @@ def serializeSeq (o : Opts) (s : St) : SeqSer × St :=
         (if o.compactListIndent && s.currentMapDepth.isSome then base else base + 1)
       else base
     let s := { s with pendingInlineComment := none }
-    ({ depth := depthNext, flow := false }, s)
+    if inlineFirst then ({ depth := depthNext, flow := false, restoreShift := some s.indentShift }, shiftForInlineNode o s)
+    else ({ depth := depthNext, flow := false }, s)
 
 /-- the part of block `SeqSer::serialize_element` before `v.serialize(..)` -/
 def seqElemPrefix (o : Opts) (q : SeqSer) (s : St) : St :=
@@ -473,8 +487,15 @@ def seqElemPrefix (o : Opts) (q : SeqSer) (s : St) : St :=
   let s := if q.first && s.inlineMapAfterDash then { s with inlineMapAfterDash := false } else s
   { s with afterDashDepth := some q.depth, pendingInlineMap := true }
 
-/-- `SeqSer::end` -/
+/-- `if let Some(shift) = self.restore_shift.take() { self.ser.indent_shift = shift; }` -/
+def restoreShift (r : Option Int) (s : St) : St :=
+  match r with
+  | some sh => { s with indentShift := sh }
+  | none => s
+
+/-- `SeqSer::finish` (`SeqSer::end`, `TupleSer::end` of kind `Normal`, `TupleVariantSer::end`) -/
 def seqEnd (o : Opts) (q : SeqSer) (s : St) : St :=
+  restoreShift q.restoreShift <|
   if q.flow then
     let s := s.write [']']
     if s.inFlow == 0 then newline s else s
@@ -494,7 +515,7 @@ structure MapSer where
   flow : Bool
   first : Bool := true
   lastKeyComplex : Bool := false
-  alignAfterDash : Bool := false
+  restoreShift : Option Int := none
   inlineValueStart : Bool := false
 deriving Repr, DecidableEq
 
@@ -529,13 +550,14 @@ def serializeMap (o : Opts) (len : Option Nat) (s : St) : MapSer × St :=
       else s.depth
     let depthNext := if inlineFirst || wasInlineValue then base + 1 else base
     let ivs := wasInlineValue && o.emptyAsBraces && len.isNone && !inlineFirst && !forced
-    ({ depth := depthNext, flow := false, alignAfterDash := inlineFirst, inlineValueStart := ivs }, s)
+    if inlineFirst then
+      ({ depth := depthNext, flow := false, restoreShift := some s.indentShift, inlineValueStart := ivs },
+       shiftForInlineNode o s)
+    else ({ depth := depthNext, flow := false, inlineValueStart := ivs }, s)
 
-/-- the `align_after_dash && at_line_start` indentation of `MapSer` (else `write_indent(depth)`) -/
-def mapIndent (o : Opts) (m : MapSer) (s : St) : St :=
-  if m.alignAfterDash && s.atLineStart then
-    { s.write (spaces (o.indentStep * (m.depth - 1)) ++ [' ', ' ']) with atLineStart := false }
-  else writeIndent o s m.depth
+/-- `self.ser.write_indent(self.depth)` of `MapSer` (a mapping that started inline after a dash has
+its following keys aligned under the first one by `indent_shift`) -/
+def mapIndent (o : Opts) (m : MapSer) (s : St) : St := writeIndent o s m.depth
 
 /-- block `MapSer::serialize_key` up to (not including) the `match scalar_key_to_string(..)` -/
 def mapKeyPrefix (m : MapSer) (s : St) : MapSer × St :=
@@ -548,8 +570,9 @@ def mapKeyPrefix (m : MapSer) (s : St) : MapSer × St :=
     else (m, s)
   (m, { s with afterDashDepth := none, pendingInlineMap := false })
 
-/-- `MapSer::end` -/
+/-- `MapSer::finish` (`MapSer::end`, `StructVariantSer::end`) -/
 def mapEnd (o : Opts) (m : MapSer) (s : St) : St :=
+  restoreShift m.restoreShift <|
   if m.flow then
     let s := s.write ['}']
     if s.inFlow == 0 then newline s else s
@@ -560,6 +583,74 @@ def mapEnd (o : Opts) (m : MapSer) (s : St) : St :=
       newline (s.write ['{', '}'])
     else newline s
   else { s with lastValueWasBlock := true }
+
+/-- block `MapSer::serialize_key`, non-scalar key: `write_anchor_for_complex_node` (no anchor here),
+`write_indent(depth)`, `? ` -/
+def complexKeyMark (o : Opts) (m : MapSer) (s : St) : St :=
+  { (writeIndent o s m.depth).write ['?', ' '] with atLineStart := false }
+
+/-- … the state the key is serialized in (`s0` = `complexKeyMark ..`): the key node is laid out after
+`? ` like a sequence item after `- ` -/
+def complexKeyCtx (m : MapSer) (s0 : St) : St :=
+  { s0 with pendingInlineMap := true, depth := m.depth, currentMapDepth := some m.depth, afterDashDepth := some m.depth }
+
+/-- … after the key (`sk`): the saved `depth` / `current_map_depth` / `pending_inline_map` /
+`inline_map_after_dash` / `after_dash_depth` of `s0` are restored, `last_value_was_block` cleared; then block
+`MapSer::serialize_value` with `last_key_complex`: `write_indent(depth)`, `: `, the value node laid out
+like a sequence item after `- `, `current_map_depth` replaced by the depth of this mapping -/
+def complexValueCtx (o : Opts) (m : MapSer) (s0 sk : St) : St :=
+  let s : St := { sk with depth := s0.depth, currentMapDepth := s0.currentMapDepth, pendingInlineMap := s0.pendingInlineMap,
+                          inlineMapAfterDash := s0.inlineMapAfterDash, afterDashDepth := s0.afterDashDepth,
+                          lastValueWasBlock := false }
+  let s := mapIndent o m s
+  let s := s.write [':', ' ']
+  { s with pendingSpaceAfterColon := false, pendingInlineMap := true, afterDashDepth := some m.depth,
+           atLineStart := false, depth := m.depth, currentMapDepth := some m.depth }
+
+/-- … after the value (`sv`): `current_map_depth`, `pending_inline_map` and `depth` are put back -/
+def complexEntryDone (s0 sv : St) : St :=
+  { sv with currentMapDepth := s0.currentMapDepth, pendingInlineMap := s0.pendingInlineMap, depth := s0.depth }
+
+/-- `VariantFrame` -/
+structure VariantFrame where
+  prevMapDepth : Option (Option Nat) := none
+  restoreShift : Option Int := none
+  flow : Bool := false
+deriving Repr, DecidableEq
+
+/-- `begin_variant(variant)`: the key `Variant:` for the position the variant is in -/
+def beginVariant (o : Opts) (f : ScalarFns) (variant : List Char) (s : St) : VariantFrame × St :=
+  if s.inFlow > 0 then
+    let s := writeSpaceIfPending s
+    let s := s.write ('{' :: plainOrQuoted o f variant ++ [':'])
+    ({ flow := true }, { s with pendingSpaceAfterColon := true, atLineStart := false })
+  else if s.pendingSpaceAfterColon then
+    let s := { s with pendingSpaceAfterColon := false }
+    let s := if !s.atLineStart then newline s else s
+    let base := s.currentMapDepth.getD s.depth
+    let s := writeIndent o s (base + 1)
+    let s := s.write (plainOrQuoted o f variant ++ [':'])
+    let s := { s with pendingSpaceAfterColon := true, atLineStart := false, pendingInlineMap := false }
+    ({ prevMapDepth := some s.currentMapDepth }, { s with currentMapDepth := some (base + 1) })
+  else
+    let inlineAfterDash := !s.atLineStart && s.afterDashDepth.isSome
+    let s := indentIfLineStart o s
+    let s := s.write (plainOrQuoted o f variant ++ [':'])
+    let s := { s with pendingSpaceAfterColon := true, atLineStart := false, pendingInlineMap := false }
+    let (prev, s) := match s.afterDashDepth with
+      | some d => (some s.currentMapDepth, { s with afterDashDepth := none, currentMapDepth := some (d + 1) })
+      | none => (none, s)
+    if inlineAfterDash then
+      ({ prevMapDepth := prev, restoreShift := some s.indentShift }, shiftForInlineNode o s)
+    else ({ prevMapDepth := prev }, s)
+
+/-- `end_variant(frame)` -/
+def endVariant (fr : VariantFrame) (s : St) : St :=
+  let s := match fr.prevMapDepth with
+    | some p => { s with currentMapDepth := p }
+    | none => s
+  let s := restoreShift fr.restoreShift s
+  if fr.flow then s.write ['}'] else s
 
 /-! ### the serializer proper -/
 
@@ -575,8 +666,7 @@ def ser (o : Opts) (f : ScalarFns) : SVal → St → Except EmitErr St
   | .newtypeStruct v, s => ser o f v s
   -- `serialize_unit_variant`
   | .unitVariant enumName variant, s =>
-    let s := writeSpaceIfPending s
-    if o.taggedEnums then .ok (serTaggedScalar o f enumName variant s)
+    if o.taggedEnums then .ok (serTaggedScalar o f enumName variant (writeSpaceIfPending s))
     else .ok (serStr o f variant s)
   -- `serialize_newtype_struct` with the reserved names
   | .flowSeq v, s => ser o f v { s with pendingFlow := some .anySeq }
@@ -600,29 +690,10 @@ def ser (o : Opts) (f : ScalarFns) : SVal → St → Except EmitErr St
     else ser o f v s
   -- `serialize_newtype_variant`
   | .newtypeVariant variant v, s =>
-    if s.pendingSpaceAfterColon then
-      let s := { s with pendingSpaceAfterColon := false }
-      let s := newline s
-      let base := s.currentMapDepth.getD s.depth
-      let s := writeIndent o s (base + 1)
-      let s := s.write (plainOrQuoted o f variant ++ [':'])
-      let s := { s with pendingSpaceAfterColon := true, atLineStart := false, pendingInlineMap := false }
-      let prev := s.currentMapDepth
-      match ser o f v { s with currentMapDepth := some (base + 1) } with
-      | .error e => .error e
-      | .ok s => .ok { s with currentMapDepth := prev }
-    else
-      let s := indentIfLineStart o s
-      let s := s.write (plainOrQuoted o f variant ++ [':'])
-      let s := { s with pendingSpaceAfterColon := true, atLineStart := false, pendingInlineMap := false }
-      match s.afterDashDepth with
-      | some d =>
-        let s := { s with afterDashDepth := none }
-        let prev := s.currentMapDepth
-        match ser o f v { s with currentMapDepth := some (d + 1) } with
-        | .error e => .error e
-        | .ok s => .ok { s with currentMapDepth := prev }
-      | none => ser o f v s
+    let (fr, s) := beginVariant o f variant s
+    match ser o f v s with
+    | .error e => .error e
+    | .ok s => .ok (endVariant fr s)
   -- `serialize_seq` / `serialize_tuple`
   | .seq items, s =>
     let (q, s) := serializeSeq o s
@@ -634,39 +705,34 @@ def ser (o : Opts) (f : ScalarFns) : SVal → St → Except EmitErr St
     match serSeqElems o f q items s with
     | .error e => .error e
     | .ok (q, s) => .ok (seqEnd o q s)
-  -- `serialize_tuple_struct` (ordinary name) + `TupleSer` of kind `Normal`
-  | .tupleStruct items, s => serTupleStructFields o f items true s
-  -- `serialize_tuple_variant` + `TupleVariantSer`
+  -- `serialize_tuple_struct` (ordinary name) + `TupleSer` of kind `Normal`: `serialize_seq`, a
+  -- `SeqSer` with `first: idx == 0` per field, `SeqSer::finish`
+  | .tupleStruct items, s =>
+    let (q, s) := serializeSeq o s
+    match serSeqElems o f q items s with
+    | .error e => .error e
+    | .ok (q, s) => .ok (seqEnd o q s)
+  -- `serialize_tuple_variant` + `TupleVariantSer`: `begin_variant`, `serialize_seq`, …, `end_variant`
   | .tupleVariant variant items, s =>
-    let s := indentIfLineStart o s
-    let s := s.write (plainOrQuoted o f variant ++ [':', '\n'])
-    let s := { s with atLineStart := true }
-    serTupleVariantFields o f (s.depth + 1) items s
+    let (fr, s) := beginVariant o f variant s
+    let (q, s) := serializeSeq o s
+    match serSeqElems o f q items s with
+    | .error e => .error e
+    | .ok (q, s) => .ok (endVariant fr (seqEnd o q s))
   -- `serialize_map` / `serialize_struct` + `MapSer`
   | .map lenKnown entries, s =>
     let (m, s) := serializeMap o (if lenKnown then some entries.length else none) s
     match serMapEntries o f m entries s with
     | .error e => .error e
     | .ok (m, s) => .ok (mapEnd o m s)
-  -- `serialize_struct_variant` + `StructVariantSer`
+  -- `serialize_struct_variant` + `StructVariantSer`: `begin_variant`, `serialize_map(Some(n))`, …,
+  -- `end_variant`
   | .structVariant variant fields, s =>
-    if s.pendingSpaceAfterColon then
-      let s := { s with pendingSpaceAfterColon := false }
-      let s := newline s
-      let base := s.currentMapDepth.getD s.depth + 1
-      let s := writeIndent o s base
-      let s := s.write (plainOrQuoted o f variant ++ [':', '\n'])
-      let s := { s with atLineStart := true }
-      serStructVariantFields o f (base + 1) fields s
-    else
-      let s := indentIfLineStart o s
-      let s := s.write (plainOrQuoted o f variant ++ [':', '\n'])
-      let s := { s with atLineStart := true }
-      match s.afterDashDepth with
-      | some d =>
-        let s := { s with afterDashDepth := none, pendingInlineMap := false }
-        serStructVariantFields o f (d + 2) fields s
-      | none => serStructVariantFields o f (s.depth + 1) fields s
+    let (fr, s) := beginVariant o f variant s
+    let (m, s) := serializeMap o (some fields.length) s
+    match serMapEntries o f m fields s with
+    | .error e => .error e
+    | .ok (m, s) => .ok (endVariant fr (mapEnd o m s))
 
 /-- `SeqSer::serialize_element` for every element; returns the final `SeqSer` (its `first` flag) -/
 def serSeqElems (o : Opts) (f : ScalarFns) (q : SeqSer) : List SVal → St → Except EmitErr (SeqSer × St)
@@ -682,27 +748,6 @@ def serSeqElems (o : Opts) (f : ScalarFns) (q : SeqSer) : List SVal → St → E
       match ser o f v (seqElemPrefix o q s) with
       | .error e => .error e
       | .ok s => serSeqElems o f { q with first := false } rest s
-
-/-- `TupleSer::serialize_field` (kind `Normal`) for every field; `isFirst` = `idx == 0` -/
-def serTupleStructFields (o : Opts) (f : ScalarFns) : List SVal → Bool → St → Except EmitErr St
-  | [], _, s => .ok s
-  | v :: rest, isFirst, s =>
-    let s := if isFirst && !s.atLineStart then newline s else s
-    let s := writeIndent o s (s.depth + 1)
-    let s := { s.write ['-', ' '] with atLineStart := false }
-    match ser o f v s with
-    | .error e => .error e
-    | .ok s => serTupleStructFields o f rest false s
-
-/-- `TupleVariantSer::serialize_field` for every field -/
-def serTupleVariantFields (o : Opts) (f : ScalarFns) (depth : Nat) : List SVal → St → Except EmitErr St
-  | [], s => .ok s
-  | v :: rest, s =>
-    let s := writeIndent o s depth
-    let s := { s.write ['-', ' '] with atLineStart := false }
-    match ser o f v s with
-    | .error e => .error e
-    | .ok s => serTupleVariantFields o f depth rest s
 
 /-- `MapSer::serialize_key` + `MapSer::serialize_value` for every entry -/
 def serMapEntries (o : Opts) (f : ScalarFns) (m : MapSer) :
@@ -737,50 +782,15 @@ def serMapEntries (o : Opts) (f : ScalarFns) (m : MapSer) :
           serMapEntries o f { m with first := false } rest
             { s with currentMapDepth := prev, pendingInlineMap := savedPim }
       | none =>
-        -- complex key: `? key`
-        let s := writeIndent o s m.depth
-        let s := { s.write ['?', ' '] with atLineStart := false }
-        let savedDepth := s.depth
-        let savedCmd := s.currentMapDepth
-        let savedPim := s.pendingInlineMap
-        let savedImad := s.inlineMapAfterDash
-        let savedAdd := s.afterDashDepth
-        match ser o f k { s with pendingInlineMap := true, depth := m.depth,
-                                 currentMapDepth := some m.depth, afterDashDepth := none } with
+        -- complex key: `? key`, then `MapSer::serialize_value` with `last_key_complex`
+        let s0 := complexKeyMark o m s
+        match ser o f k (complexKeyCtx m s0) with
         | .error e => .error e
-        | .ok s =>
-          let s := { s with depth := savedDepth, currentMapDepth := savedCmd, pendingInlineMap := savedPim,
-                            inlineMapAfterDash := savedImad, afterDashDepth := savedAdd,
-                            lastValueWasBlock := false }
-          -- `serialize_value` with `last_key_complex`
-          let savedPim2 := s.pendingInlineMap
-          let savedDepth2 := s.depth
-          let s := mapIndent o m s
-          let s := s.write [':']
-          let s := { s with pendingSpaceAfterColon := true, pendingInlineMap := true, atLineStart := false,
-                            depth := m.depth }
-          let prev := s.currentMapDepth
-          match ser o f v { s with currentMapDepth := some m.depth } with
+        | .ok sk =>
+          match ser o f v (complexValueCtx o m s0 sk) with
           | .error e => .error e
-          | .ok s =>
-            serMapEntries o f { m with first := false, lastKeyComplex := false } rest
-              { s with currentMapDepth := prev, pendingInlineMap := savedPim2, depth := savedDepth2 }
-
-/-- `StructVariantSer::serialize_field` for every field -/
-def serStructVariantFields (o : Opts) (f : ScalarFns) (depth : Nat) :
-    List (SVal × SVal) → St → Except EmitErr St
-  | [], s => .ok s
-  | (k, v) :: rest, s =>
-    match keyText o f k with
-    | none => .error .nonScalarKey
-    | some text =>
-      let s := writeIndent o s depth
-      let s := s.write (text ++ [':'])
-      let s := { s with pendingSpaceAfterColon := true, atLineStart := false }
-      let prev := s.currentMapDepth
-      match ser o f v { s with currentMapDepth := some depth } with
-      | .error e => .error e
-      | .ok s => serStructVariantFields o f depth rest { s with currentMapDepth := prev }
+          | .ok sv =>
+            serMapEntries o f { m with first := false, lastKeyComplex := false } rest (complexEntryDone s0 sv)
 end
 
 /-- `to_string_with_options(value, options)`: `SerializerOptions::consistent`, then
